@@ -36,7 +36,7 @@ package consistenthash
 //@ func (*ConsistentHash).FindInt32$1
 //@   requires *c != nil && 0 <= x && x < len(c.sortedKeys)
 //@   pure
-//@   ensures result == (c.sortedKeys[x] >= *key)
+//@   ensures [C13,C14] result == (c.sortedKeys[x] >= *key)
 //@   safety [C13]
 //
 //@ func (*ConsistentHash).FindInt32
